@@ -666,7 +666,69 @@ def mixed_in_one_master_section(ctx):
                     ctx.spec_failure(dict(case, master=k, structure=repr(st)[:300]), "master %d: 'G' resolves to two boxes (8 points); compiled structure %r" % (k, st))
 
 
+def custom_ifilter_section(ctx):
+    """the documented extension point: a USER-DEFINED filter class handed in through `filters=[...]` that has an interpolatable
+    sibling `<Name>IFilter` in its module.  The interpolatable compilers run the sibling (one joint decision for all masters),
+    whatever the class is called -- names whose stem ends in a letter of the word "Filter" included.  The filter drops
+    contours smaller than a threshold; the small second contour of `a` is below it in the light master only: jointly it stays"""
+    import sys
+    import ufo2ft
+    from ufo2ft.filters import BaseFilter, BaseIFilter
+    mod = sys.modules[__name__]
+
+    def small(contour, limit=150):
+        xs, ys = [p.x for p in contour], [p.y for p in contour]
+        return (max(xs) - min(xs)) * (max(ys) - min(ys)) < limit
+
+    def make(stem):
+        class F(BaseFilter):
+            def filter(self, glyph):
+                doomed = [c for c in glyph if small(c)]
+                for c in doomed:
+                    glyph.removeContour(c)
+                return bool(doomed)
+
+        class IF(BaseIFilter):
+            def filter(self, glyphName, glyphs):
+                n = min(len(g) for g in glyphs)
+                doomed = [j for j in range(n) if all(small(g[j]) for g in glyphs)]
+                for g in glyphs:
+                    for j in reversed(doomed):
+                        g.removeContour(g[j])
+                return bool(doomed)
+        F.__name__ = F.__qualname__ = stem + "Filter"
+        IF.__name__ = IF.__qualname__ = stem + "IFilter"
+        F.__module__ = IF.__module__ = __name__
+        setattr(mod, F.__name__, F); setattr(mod, IF.__name__, IF)
+        return F
+    box = lambda x0, y0, x1, y1: [(Fr(x0), Fr(y0), "line"), (Fr(x1), Fr(y0), "line"), (Fr(x1), Fr(y1), "line"), (Fr(x0), Fr(y1), "line")]
+    STEMS = ["DropSpeckle", "Despeckles", "TrimTail", "Filter", "RemoveDirt", "Cleanup"]
+    rng = ctx.subrng("custom-ifilter")
+    for i in range(ctx.budget(len(STEMS), 2 * len(STEMS))):
+        stem = STEMS[i % len(STEMS)]
+        lib = ["ufoLib2", "defcon"][(i // len(STEMS)) % 2]
+        fn = ["compileInterpolatableTTFsFromDS", "compileInterpolatableOTFsFromDS"][i % 2]
+        def master(k):
+            d = [8, 14][k]
+            return {"glyphs": [{"name": "a", "unicodes": [0x61], "width": Fr(500 + 40 * k), "components": [], "anchors": [],
+                                "contours": [box(50, 0, 350 + 40 * k, 400), box(400, 0, 400 + d, d)]}],
+                    "glyphOrder": ["a"], "kerning": {}, "groups": {}, "lib": {}, "features": "",
+                    "info": {"familyName": "Fam", "styleName": "M%d" % k, "unitsPerEm": 1000, "ascender": 800, "descender": -200}}
+        masters = [master(0), master(1)]
+        case = {"function": fn, "lib": lib, "filter_class": stem + "Filter", "masters": [jsonable(m) for m in masters]}
+        ctx.count(); ctx.klass("user-defined filter with an interpolatable sibling: %sFilter" % stem); ctx.nontriv(("cif", i, ctx.scale))
+        try:
+            cls = make(stem)
+            ds, fonts = dsgen.make_designspace(rng, masters, lib, instances=False)
+            res = getattr(ufo2ft, fn)(ds, filters=[..., cls()], useProductionNames=False)
+        except Exception as e:
+            ctx.spec_failure(case, "%s raised %s: %s\n%s" % (fn, type(e).__name__, e, traceback.format_exc()[-1000:]))
+            continue
+        compare_masters(ctx, case, [sd.font for sd in res.sources])
+
+
 def explore(ctx):
+    custom_ifilter_section(ctx)
     mixed_in_one_master_section(ctx)
     per_master_filter_section(ctx)
     notdef_family_section(ctx)
